@@ -507,20 +507,68 @@ def generate():
     return '\n'.join(out) + '\n', items
 
 
+def generate_gate():
+    """the entry gates: base/src/utils/mem.rs check_align_and_min_size, TypeIter::check_align_and_min_size of
+    base/src/utils/iter.rs (the run-time check of the generated Init), and the order check-then-unchecked of
+    FlatValidate::validate and Emplacer::emplace.  Written to coq/Generated/KernelGate.v (needs Model.Base for res)."""
+    out = ['(* KernelGate.v — GENERATED by tools/translate.py from the current source of /repo on every run of ./check.',
+           '   Do not edit: the alignment / minimum-size gates of the library and the order in which validate and emplace',
+           '   apply them.  What they are proved equal to: Proofs/KernelGateFacts.v. *)',
+           'From Coq Require Import NArith Bool.', 'From Flatty.Model Require Import Base.', 'Open Scope N_scope.', '']
+
+    def gate(rel, fn_re, what, name, align_name, min_name):
+        body = find(rel, fn_re, what)
+        m = re.match(r'^if (\w+)\.as_ptr\(\)\.align_offset\((.*?)\) != 0 \{ Err\(Error \{ kind: ErrorKind::(\w+), pos: (\d+), \}\) \} '
+                     r'else if (\w+)\.len\(\) < (.*?) \{ Err\(Error \{ kind: ErrorKind::(\w+), pos: (\d+), \}\) \} else \{ Ok\(\(\)\) \}$', body)
+        if not m or m.group(1) != m.group(5):
+            raise TranslateError('%s: %s is no longer "misaligned -> Err, else too short -> Err, else Ok"' % (rel, what))
+        if m.group(2).strip() != align_name or m.group(6).strip() != min_name:
+            raise TranslateError('%s: %s tests %r / %r, expected %r / %r' % (rel, what, m.group(2), m.group(6), align_name, min_name))
+        out.append('(* %s: %s *)' % (rel, what))
+        out.append('Definition %s (ALIGN MIN_SIZE addr len : N) : res unit :=' % name)
+        out.append('  if negb (addr mod ALIGN =? 0) then Err %s %s else if len <? MIN_SIZE then Err %s %s else Ok tt.' % (
+            m.group(3), m.group(4), m.group(7), m.group(8)))
+    gate('base/src/utils/mem.rs', r'pub fn check_align_and_min_size<T: FlatBase \+ \?Sized>\(bytes: &\[u8\]\) -> Result<\(\), Error> \{(.*?)\n\}',
+         'check_align_and_min_size', 'g_check_align_and_min_size', 'T::ALIGN', 'T::MIN_SIZE')
+    gate('base/src/utils/iter.rs', r'fn check_align_and_min_size\(&self, data: &\[u8\]\) -> Result<\(\), Error> \{(.*?)\n    \}',
+         'TypeIter::check_align_and_min_size', 'g_type_iter_check', 'self.align()', 'self.min_size(0)')
+    # order: the gate first, then the unchecked part
+    v = find('base/src/traits.rs', r'fn validate\(bytes: &\[u8\]\) -> Result<\(\), Error> \{(.*?)\n    \}', 'FlatValidate::validate')
+    if v != 'check_align_and_min_size::<Self>(bytes)?; unsafe { Self::validate_unchecked(bytes) }':
+        raise TranslateError('base/src/traits.rs: FlatValidate::validate is no longer "gate?; validate_unchecked": %r' % v)
+    e = find('base/src/emplacer.rs', r'fn emplace\(self, bytes: &mut \[u8\]\) -> Result<&mut T, Error> \{(.*?)\n    \}', 'Emplacer::emplace')
+    if e != 'check_align_and_min_size::<T>(bytes)?; unsafe { self.emplace_unchecked(bytes) }':
+        raise TranslateError('base/src/emplacer.rs: Emplacer::emplace is no longer "gate?; emplace_unchecked": %r' % e)
+    out.append('(* base/src/traits.rs FlatValidate::validate, base/src/emplacer.rs Emplacer::emplace: `gate?; unchecked` *)')
+    out.append('Definition g_gate_then {A : Type} (gate : res unit) (unchecked : res A) : res A :=')
+    out.append('  match gate with Ok _ => unchecked | Err k p => Err k p | Crash c => Crash c end.')
+    return '\n'.join(out) + '\n'
+
+
 def write():
     """regenerates coq/Generated/Kernel.v when its content changes; returns (changed, error or None)"""
+    gpath = os.path.join(VERIF, 'coq', 'Generated', 'KernelGate.v')
+    gerr = None
+    try:
+        gsrc = generate_gate()
+        if not os.path.exists(gpath) or open(gpath).read() != gsrc:
+            os.makedirs(os.path.dirname(gpath), exist_ok=True)
+            with open(gpath, 'w') as f:
+                f.write(gsrc)
+    except (TranslateError, OSError) as ex:
+        gerr = 'the translator cannot read the entry gates of /repo: %s' % ex
     path = os.path.join(VERIF, 'coq', 'Generated', 'Kernel.v')
     try:
         src, _ = generate()
     except (TranslateError, OSError) as e:
-        return False, 'the translator cannot read the arithmetic kernel of /repo: %s' % e
+        return False, 'the translator cannot read the arithmetic kernel of /repo: %s' % e + ('; ' + gerr if gerr else '')
     old = open(path).read() if os.path.exists(path) else None
     if old != src:
         os.makedirs(os.path.dirname(path), exist_ok=True)
         with open(path, 'w') as f:
             f.write(src)
-        return True, None
-    return False, None
+        return True, gerr
+    return False, gerr
 
 
 PY_FUNS = {'max': lambda a, b: a if a >= b else b, 'min': lambda a, b: a if a <= b else b}
